@@ -7,6 +7,7 @@ import (
 	"github.com/hydraide/hydraide/app/core/hydra/swamp"
 	"github.com/hydraide/hydraide/app/core/hydra/swamp/treasure"
 	"github.com/hydraide/hydraide/app/core/hydra/swamp/treasure/msgpackpatch"
+	"github.com/hydraide/hydraide/app/verifhook"
 	hydrapb "github.com/hydraide/hydraide/sdk/go/hydraidego/v3/hydraidepbgo"
 	"google.golang.org/grpc/codes"
 	"google.golang.org/grpc/status"
@@ -195,6 +196,7 @@ func capPreCount(swampObj swamp.Swamp, predicate func(treasureForCount) bool) (i
 		return predicate(t)
 	}
 	count := swampObj.CountMatchingTreasures(adapted)
+	verifhook.Point("gateway.capPreCount.counted", int64(count))
 	// Cap-bearing patch flows serialise on swamp.capMu — but the swamp
 	// interface does not expose it directly. Acquire it via the
 	// public LockCapMu / UnlockCapMu accessors added on the swamp
